@@ -70,7 +70,7 @@ def check_crate(ctx, config, w, crate, dims, counts):
         Q, UQ = q.path, q.unit_path
         expected |= {("+", Q, Q, Q), ("-", Q, Q, Q), ("/", Q, Q, amt),
                      ("*", amt, UQ, Q), ("*", UQ, amt, Q), ("*", amt, Q, Q), ("*", Q, amt, Q), ("/", Q, amt, Q),
-                     ("*", Q, "quantities::rate::Rate<$TQ,%s>" % Q, "$TQ"), ("/", Q, "quantities::rate::Rate<%s,$PQ>" % Q, "$PQ")}
+                     ("*", Q, "quantities::rate::Rate<$G0,%s>" % Q, "$G0"), ("/", Q, "quantities::rate::Rate<%s,$G0>" % Q, "$G0")}
         d = w.decl_of.get(Q)
         if d is None or d.derived is None:
             continue
@@ -85,7 +85,7 @@ def check_crate(ctx, config, w, crate, dims, counts):
         counts["derivations"].add((config, Q))
     expected |= with_ref_forms(by_value_derived)
     if crate.name == "quantities":
-        expected |= {("*", "quantities::rate::Rate<$TQ,$PQ>", "$PQ", "$TQ"), ("*", amt, "quantities::One", amt), ("*", "quantities::One", amt, amt)}
+        expected |= {("*", "quantities::rate::Rate<$G0,$G1>", "$G1", "$G0"), ("*", amt, "quantities::One", amt), ("*", "quantities::One", amt, amt)}
     counts["by_value_derived"] |= {(config,) + e for e in by_value_derived}
     counts["derived_impls"] |= {(config,) + e for e in with_ref_forms(by_value_derived)}
     # ---- exactness (rule 3/4) -----------------------------------------------
